@@ -71,7 +71,7 @@ FocusTable == [
   struct2  |-> [p |-> <<>>, n |-> 1, m |-> 5, a |-> {"w", "sp", "lf", "-", ":", "[", "]", ","}],
   block    |-> [p |-> <<>>, n |-> 5, m |-> 6, a |-> {"w", "sp", "lf", "-", ":", "?"}],
   indic    |-> [p |-> <<>>, n |-> 3, m |-> 4, a |-> {"&", "*", "!", "|", ">", "'", "dq", "%", "@", "bt", "w", "lf", ".", ":", "sp", "-"}],
-  breaks   |-> [p |-> <<>>, n |-> 4, m |-> 4, a |-> {"w", "sp", "lf", "cr", "nel", "ls", "ps", "bom", "np", "tab", ":", "-", "#"}],
+  breaks   |-> [p |-> <<>>, n |-> 3, m |-> 4, a |-> {"w", "sp", "lf", "cr", "nel", "ls", "ps", "bom", "np", "tab", ":", "-", "#"}],
   docs     |-> [p |-> <<>>, n |-> 5, m |-> 7, a |-> {"-", ".", "w", "lf", "sp"}],
   dquote   |-> [p |-> <<"dq">>, n |-> 4, m |-> 5, a |-> {"w", "sp", "lf", "dq", "bs", "n", "-", "tab"}],
   escape   |-> [p |-> <<"dq", "bs">>, n |-> 2, m |-> 3,
